@@ -164,6 +164,46 @@ def check_case(case):
                     if w not in wins:
                         for s in (1, 5):
                             calls += check_call(seq, "WF", size, ua_name, ua, w, s, 3, case, out, shared)
+        # the documented parameter order passed positionally == the same call by keyword (LC, where window, step and word size all matter)
+        for (w_, s_, ws_) in ((min(N, 4), 2, 1), (min(N, 5), 1, 2), (min(N, 3), 3, 3)):
+            for size, ua_name, ua in confs[:2] + confs[-1:]:
+                calls += 2
+                try:
+                    kw_ = dict(complexityType="LC", blobLen=w_, stepSize=s_, wordSize=ws_)
+                    if ua is not None:
+                        kw_["userAlphabet"] = dict(ua)
+                    else:
+                        kw_["alphabetSize"] = size
+                    a_kw = np.asarray(SP0(seq).get_linear_complexity(**kw_))
+                    a_pos = np.asarray(SP0(seq).get_linear_complexity("LC", size if ua is None else 20, {} if ua is None else dict(ua), w_, s_, ws_))
+                except Exception as e:  # noqa
+                    out.append({"key": "positional-call-rejected", "what": "%s: get_linear_complexity('LC', size, alphabet, %d, %d, %d) raised %r"
+                                % (seq, w_, s_, ws_, e), "case": dict(case, w=w_, s=s_, ws=ws_)})
+                    continue
+                if a_kw.shape != a_pos.shape or not np.allclose(a_kw, a_pos, rtol=1e-12, atol=1e-13):
+                    out.append({"key": "positional-vs-keyword", "what": "%s: get_linear_complexity('LC', %r, %s, %d, %d, %d) positionally gives shape %r, "
+                                "by keyword (blobLen=%d, stepSize=%d, wordSize=%d) shape %r" % (seq, size, ua_name, w_, s_, ws_, a_pos.shape, w_, s_, ws_, a_kw.shape),
+                                "case": dict(case, w=w_, s=s_, ws=ws_, size=size, ua=ua_name)})
+        # a user alphabet carrying extra (non-amino-acid) keys that map to letters no amino acid maps to: if it is accepted at all,
+        # the 20 amino-acid entries decide - alphabet size and values are those of the same alphabet without the extras
+        for ua_name in case["uas"][:2]:
+            ua = uas[ua_name]
+            unused = [a for a in T.AA if a not in set(ua.values())][:3]
+            if not unused:
+                continue
+            extra = dict(ua)
+            for k_, tgt in zip(("X", "b", "Z"), unused):
+                extra[k_] = tgt
+            w_ = min(N, 6)
+            calls += 2
+            try:
+                want = np.asarray(SP0(seq).get_linear_complexity("WF", userAlphabet=dict(ua), blobLen=w_))
+                got = np.asarray(SP0(seq).get_linear_complexity("WF", userAlphabet=extra, blobLen=w_))
+            except Exception:  # noqa (whether extra keys are accepted is not specified)
+                continue
+            if got.shape != want.shape or not np.allclose(got, want, rtol=1e-12, atol=1e-13):
+                out.append({"key": "extra-keys-change-result", "what": "%s: user alphabet %s with extra keys X,b,Z -> %r gives WF %r, without them %r"
+                            % (seq, ua_name, unused, got[1].tolist()[:4], want[1].tolist()[:4]), "case": dict(case, ua=ua_name)})
         # the alphabet size in its other accepted spellings (string, padded string, float, numpy integer) selects the same reduction
         for size in case["sizes"]:
             w = min(N, 4)
@@ -366,7 +406,7 @@ def run(tier, seed, t0):
              "x user alphabets %s x every window 1..N+1 x every step 1..N x word sizes 1..6 (LC): shape (2,floor((N-w)/s)+1), "
              "integral strictly increasing positions within 1..N, values in [0,1]; all configurations of a word are asked of ONE live object; locality (each value == the one-window profile "
              "of a fresh object built from that window), WF == Shannon entropy to base alphabet-size of the independently reduced "
-             "window (medium words: WF at every window length), the alphabet size given as string / padded string / float / numpy number selects the same reduction, windows with equal reduced strings give equal values (all three types), w>N and 6 unknown types rejected; an array returned earlier must not be modified by a later call; one user-alphabet dictionary object edited in place between calls on one live object (10 merges, then 4 invalidating edits); in a freshly imported "
+             "window (medium words: WF at every window length), the alphabet size given as string / padded string / float / numpy number selects the same reduction, windows with equal reduced strings give equal values (all three types), w>N and 6 unknown types rejected; an array returned earlier must not be modified by a later call; the documented parameter order passed positionally equals the keyword call; extra non-amino-acid keys in a user alphabet do not change the alphabet size; one user-alphabet dictionary object edited in place between calls on one live object (10 merges, then 4 invalidating edits); in a freshly imported "
              "package four 130-residue sequences lacking whole reduced classes are profiled first and a battery of short words afterwards; plus every (N,w,s) with N<=%d on a periodic 20-letter sequence for shape "
              "and position row; non-trivial = words with >=2 distinct letters" % (N1, N2, sizes, uas, NL),
         bounds={"N_LKF": N1, "N_ASTDE": N2, "sizes": sizes, "user_alphabets": uas, "lattice_N": NL},
